@@ -129,6 +129,7 @@ def generate(tier, seed, casedir, variant):
 def purity_c12(cfg):
     jax, jnp, np, eqx, jinns = jx()
     import c12 as M
+    cfg = dict(cfg, own_kind=None)      # value_and_grad below differentiates w.r.t. every leaf: float leaves only
     # rebuild the objects of c12.evaluate and run the purity checks on them
     terms, unchanged = M.evaluate(cfg)
     case = dict(what="c12", cfg=M.jsonable(cfg))
